@@ -59,7 +59,7 @@ def cases(ctx):
                "sizes": [1000, 1100, 1500, 3000] if ctx.quick or i % 10 else [10 ** 4, 30000]}
     for i in range(ctx.per_shard(ctx.pick(60, 1500))):
         yield {"kind": "bigdigits", "seed": rng.getrandbits(32), "salt": rng.choice(SALTS), "n": rng.choice([4299, 4301, 4400, 5000, 9000])}
-    for i in range(ctx.per_shard(ctx.pick(6, 300))):
+    for i in range(ctx.per_shard(ctx.pick(160, 3000))):
         yield {"kind": "files", "seed": rng.getrandbits(32), "salt": rng.choice(SALTS)}
     yield {"kind": "mutate", "seed": rng.getrandbits(32), "rounds": ctx.per_shard(ctx.pick(3000, 300000))}
 
@@ -236,7 +236,8 @@ def _files(ctx, case, nc):
     if rng.random() < 0.5:
         # still a text file, whatever its first characters happen to be
         lines_.insert(0, rng.choice(["PKI trustpoint CA-1", "PK", "BZh91AY&SY looks like bzip2", "%PDF-1.4 not really", "MZ", "GIF89a", "\x7fELF",
-                                     "#!/bin/sh", "<?xml version=\"1.0\"?>", "\ufeff! saved with a BOM", "Rar!", "7z", "\x00", "\x1f"]))
+                                     "#!/bin/sh", "<?xml version=\"1.0\"?>", "<?xml version=\"1.0\" encoding=\"unicode\"?>", "<?xml version=\"1.0\" encoding=\"utf-16\"?>",
+                                     "<?xml version=\"1.0\" encoding=\"x-none\"?>", "# -*- coding: latin-1 -*-", "# vim: set fileencoding=cp1252 :", "\ufeff! saved with a BOM", "Rar!", "7z", "\x00", "\x1f"]))
     text = "".join(l.replace("\r", "") + "\n" for l in lines_)
     with tempfile.TemporaryDirectory(dir=os.path.join(load.VERIF, ".work")) as d:
         src, dst = os.path.join(d, "in.cfg"), os.path.join(d, "out.cfg")
